@@ -218,8 +218,15 @@ func genIterProg(r *eng.Rng, ref *model.Coll, uni []string, level string) IterPr
 			pool = append(pool, kk)
 		}
 	}
-	pool = append(pool, []byte{}, []byte{0xff, 0xff, 0xff}, []byte("zzzz"))
-	pick := func() []byte { return append([]byte{}, pool[r.Intn(len(pool))]...) }
+	extremes := [][]byte{{}, {0xff, 0xff, 0xff}, []byte("zzzz")}
+	pool = append(pool, extremes...)
+	pick := func() []byte {
+		if len(pool) > 100 && r.Chance(1, 6) {
+			// in a wide universe the far ends would hardly ever be drawn
+			return append([]byte{}, extremes[r.Intn(len(extremes))]...)
+		}
+		return append([]byte{}, pool[r.Intn(len(pool))]...)
+	}
 	ip := IterProg{Level: level}
 	switch r.Intn(6) {
 	case 0:
@@ -286,6 +293,12 @@ func c09Shape(rg *eng.Rng, th bool) *eng.Program {
 	gp := eng.GenParams{MinBatches: 1, MaxBatches: 7, NKeys: 4 + rg.Intn(12), Park: false, Idle: false}
 	if rg.Chance(1, 3) {
 		gp.NoPersistSteps = true
+	}
+	if rg.Chance(1, 5) {
+		// wide shapes: hundreds of entries per segment, so that a seek has
+		// to give up stepping (DefaultNaiveSeekToMaxTries) and jump
+		gp.WideKeys = 110 + rg.Intn(240)
+		gp.MaxBatches = 3
 	}
 	p := eng.GenProgram(rg, "C09", cfg, gp)
 	return p
